@@ -31,7 +31,9 @@ static AutDescription genDesc(vh::Rng& g, int maxRank, bool hostile)
 	int ns = g.range(1, 4); std::vector<std::pair<std::string, int>> syms;
 	for (int i = 0; i < ns; ++i)
 	{
-		std::string n = hostile ? hostileName(g) : "s" + std::to_string(i); int rk = g.range(0, maxRank); bool dup = false; for (auto& s : syms) if (s.first == n) dup = true; if (dup) continue;
+		std::string n = hostile ? hostileName(g) : "s" + std::to_string(i); int rk = g.range(0, maxRank); bool dup = false;
+		// wide rules: up to the largest arity the top-down symbolic encoding supports (6 arity bits: 63), around powers of two
+		if (maxRank > 1 && g.chance(1, 10)) { static const int wide[] = {4, 7, 8, 9, 15, 16, 17, 31, 32, 33, 47, 61, 62, 63}; rk = wide[g.below(sizeof(wide) / sizeof(*wide))]; } for (auto& s : syms) if (s.first == n) dup = true; if (dup) continue;
 		syms.push_back({n, rk});
 		// the symbols section may declare a symbol without a rank (the parser records rank -1 for "Ops a f:2"), or not at all
 		int decl = static_cast<int>(g.below(8)); if (decl == 0) d.symbols.insert(std::make_pair(n, -1)); else if (decl != 1) d.symbols.insert(syms.back());
@@ -41,7 +43,7 @@ static AutDescription genDesc(vh::Rng& g, int maxRank, bool hostile)
 	if (sts.empty()) return d;        // empty sections
 	int nf = g.range(0, 2); for (int i = 0; i < nf; ++i) d.finalStates.insert(sts[g.below(nq)]);
 	int nr = g.range(0, 6);
-	for (int i = 0; i < nr; ++i) { auto& s = syms[g.below(syms.size())]; AutDescription::StateTuple ch; for (int j = 0; j < s.second; ++j) ch.push_back(sts[g.below(nq)]); d.transitions.insert(AutDescription::Transition(ch, s.first, sts[g.below(nq)])); }
+	for (int i = 0; i < nr; ++i) { auto& s = syms[g.below(syms.size())]; if (s.second > 3) R->count("wide-rule"); AutDescription::StateTuple ch; for (int j = 0; j < s.second; ++j) ch.push_back(sts[g.below(nq)]); d.transitions.insert(AutDescription::Transition(ch, s.first, sts[g.below(nq)])); }
 	return d;
 }
 
@@ -99,7 +101,9 @@ static void roundTripEncoding(const char* enc, const std::string& txt)
 		if (!(d2.transitions == d3.transitions)) R->violation(k + "/dump-load-dump/rules-differ", "first dump:\n" + t2 + "second dump:\n" + t3);
 		else if (!(d2.finalStates == d3.finalStates)) R->violation(k + "/dump-load-dump/final-states-differ", "first dump:\n" + t2 + "second dump:\n" + t3);
 		AutDescription d1 = parser().ParseString(txt);
-		if (!(d1.transitions == d2.transitions)) R->count(std::string("info:") + enc + "-first-dump-rules-differ-from-text");
+		// the automaton was loaded from txt: its dump must show the rules and final states of txt
+		if (!(d1.transitions == d2.transitions)) R->violation(k + "/load-dump/rules-differ-from-text", "text:\n" + txt + "dump:\n" + t2);
+		else if (!(d1.finalStates == d2.finalStates)) R->violation(k + "/load-dump/final-states-differ-from-text", "text:\n" + txt + "dump:\n" + t2);
 	}
 	catch (std::exception& e) { R->violation(k + "/roundtrip/exception", std::string(e.what()) + "\n" + txt); }
 }
